@@ -39,6 +39,9 @@ pub enum Ev {
     End(String),
     /// verbatim markup that the readers ignore (comment, processing instruction); written as is
     Other(String),
+    /// a CDATA section `<![CDATA[…]]>` holding this character data (must not contain `]]>`); quick-xml reports it
+    /// as `Event::CData` (C16: defined-name text)
+    CData(String),
 }
 
 pub fn start(name: &str, attrs: &[(&str, &str)]) -> Ev {
@@ -119,6 +122,12 @@ pub fn serialize(evs: &[Ev], mut self_close: impl FnMut() -> bool) -> String {
                 o.push('>');
             }
             Ev::Other(raw) => o.push_str(raw),
+            Ev::CData(t) => {
+                assert!(!t.contains("]]>"), "CDATA content must not contain ]]>");
+                o.push_str("<![CDATA[");
+                o.push_str(t);
+                o.push_str("]]>");
+            }
         }
         i += 1;
     }
@@ -126,7 +135,7 @@ pub fn serialize(evs: &[Ev], mut self_close: impl FnMut() -> bool) -> String {
 }
 
 /// Wire form of an event list for the Lean drivers: one word per event, no spaces inside a word.
-/// `s:<name>:<k>=<hex v>,<k>=<hex v>` | `e:<name>` | `t:<hex>` | `o`   (hex of the UTF-8 bytes, `-` = empty).
+/// `s:<name>:<k>=<hex v>,<k>=<hex v>` | `e:<name>` | `t:<hex>` | `c:<hex>` (CDATA) | `o`   (hex of the UTF-8 bytes, `-` = empty).
 /// Element and attribute names are ASCII without `: , =` except the namespace colon, which is written `.`.
 pub fn ev_wire(evs: &[Ev]) -> String {
     let nm = |s: &str| s.replace(':', ".");
@@ -140,6 +149,7 @@ pub fn ev_wire(evs: &[Ev]) -> String {
             Ev::End(n) => format!("e:{}", nm(n)),
             Ev::Text(t) => format!("t:{}", crate::hex(t.as_bytes())),
             Ev::Other(_) => "o".to_string(),
+            Ev::CData(t) => format!("c:{}", crate::hex(t.as_bytes())),
         });
     }
     if words.is_empty() {
@@ -293,6 +303,8 @@ pub struct XlsxBook {
     pub raw_shared_strings: Option<String>,
     /// write the text of every defined name of two or more characters as two text nodes around a comment (C16)
     pub split_defined_names: bool,
+    /// write (the middle third of) every defined-name text as a CDATA section (C16)
+    pub cdata_defined_names: bool,
     /// events written as the last children of `<workbook>` (after `workbook_extra`), e.g. an `<extLst>`; unlike
     /// `workbook_extra` they are part of `Built::workbook_events` (C16). Names are written as given (no prefixing).
     pub workbook_tail_events: Vec<Ev>,
@@ -316,6 +328,7 @@ impl XlsxBook {
             workbook_extra: String::new(),
             raw_shared_strings: None,
             split_defined_names: false,
+            cdata_defined_names: false,
             workbook_tail_events: vec![],
         }
     }
@@ -435,6 +448,17 @@ pub struct Layout {
     pub pct_attr_extra: u8,
     /// chance that a number cell WITH a style carries an explicit `t="n"` (on top of `pct_t_n`)
     pub pct_t_n_styled: u8,
+    /// chance, `<xf>` by `<xf>`, that an entry of `cellXfs` whose format id is 0 (General) is written WITHOUT the
+    /// optional `numFmtId` attribute (its default is 0: §18.8.45). The entry still occupies its slot: style
+    /// indices count `<xf>` elements, not `numFmtId` attributes. Private stream, `plain()` = 0. (C01, seeded C01-m4)
+    pub pct_xf_omit_general: u8,
+    /// chance (per styles part, then element by element) of legal structure around the format table that a reader
+    /// must not mistake for cell formats: several `<xf>` in `<cellStyleXfs>` (with date ids / without `numFmtId`;
+    /// they are NOT cell formats), `<alignment/>`/`<protection/>` children inside `<xf>`, `<fonts>`/`<fills>`/
+    /// `<borders>` blocks, a `<cellStyles>` block, `<dxfs>` holding `<numFmt>` elements whose ids collide with real
+    /// ones (they do not define number formats), and `count` attributes that are wrong or missing.
+    /// Private stream, `plain()` = 0. (C01)
+    pub pct_styles_noise: u8,
 }
 
 impl Layout {
@@ -464,6 +488,8 @@ impl Layout {
             pct_attr_shuffle: 0,
             pct_attr_extra: 0,
             pct_t_n_styled: 0,
+            pct_xf_omit_general: 0,
+            pct_styles_noise: 0,
         }
     }
     /// every knob randomised (legal variations only)
@@ -497,17 +523,19 @@ impl Layout {
             pct_attr_shuffle: *own.pick(&[0u8, 0, 50, 100, 100]),
             pct_attr_extra: *own.pick(&[0u8, 0, 30, 100]),
             pct_t_n_styled: *own.pick(&[0u8, 50, 100]),
+            pct_xf_omit_general: *own.pick(&[0u8, 50, 100, 100]),
+            pct_styles_noise: *own.pick(&[0u8, 0, 60, 100]),
         }
     }
     /// short description for counters / failure signatures
     pub fn describe(&self) -> String {
         format!(
-            "pre={} rel={} case={:?} target={:?} zip={:?} dim={:?} rowref={} cellref={} lower={} swap={} dedupe={} rich={} emptysi={} tn={} selfclose={} ws={} noise={} blank={} attrshuffle={} attrextra={} tnstyled={}",
+            "pre={} rel={} case={:?} target={:?} zip={:?} dim={:?} rowref={} cellref={} lower={} swap={} dedupe={} rich={} emptysi={} tn={} selfclose={} ws={} noise={} blank={} attrshuffle={} attrextra={} tnstyled={} xfomit={} stylesnoise={}",
             if self.prefix.is_empty() { "-" } else { &self.prefix },
             self.rel_prefix, self.part_case, self.target, self.compression, self.dimension, self.pct_row_ref,
             self.pct_cell_ref, self.pct_lower_ref, self.pct_swap_string_store, self.pct_sst_dedupe, self.pct_rich,
             self.pct_empty_si, self.pct_t_n, self.pct_self_close, self.pct_whitespace, self.pct_noise, self.pct_write_blank,
-            self.pct_attr_shuffle, self.pct_attr_extra, self.pct_t_n_styled
+            self.pct_attr_shuffle, self.pct_attr_extra, self.pct_t_n_styled, self.pct_xf_omit_general, self.pct_styles_noise
         )
     }
     fn q(&self, n: &str) -> String {
@@ -833,10 +861,40 @@ pub fn render_sst(sst: &Sst, l: &Layout, rng: &mut Rng) -> Vec<Ev> {
 pub fn render_styles(book: &XlsxBook, l: &Layout) -> Vec<Ev> {
     let mut out = Vec::new();
     let mut arng = attr_rng(l, "xl/styles.xml");
+    // structure knobs (`pct_xf_omit_general`, `pct_styles_noise`): their own stream, so that the bytes of every
+    // other knob stay what they were
+    let mut srng = attr_rng(l, "xl/styles.xml#structure");
+    let noise = roll(&mut srng, l.pct_styles_noise);
     let (nk, nv) = l.ns_attr();
     out.push(Ev::Start(l.q("styleSheet"), vec![(nk, nv)]));
+    // a `count` attribute: right, wrong or missing (it is informative only)
+    let count_attr = |srng: &mut Rng, n: usize| -> Vec<(String, String)> {
+        if !noise {
+            return vec![("count".into(), n.to_string())];
+        }
+        match srng.below(4) {
+            0 => vec![],
+            1 => vec![("count".into(), "0".into())],
+            2 => vec![("count".into(), (n + 3).to_string())],
+            _ => vec![("count".into(), n.to_string())],
+        }
+    };
+    let empty_elem = |out: &mut Vec<Ev>, name: &str, attrs: Vec<(String, String)>| {
+        out.push(Ev::Start(l.q(name), attrs));
+        out.push(end(&l.q(name)));
+    };
+    // children an `<xf>` may carry (§18.8.45): never a format
+    let xf_children = |out: &mut Vec<Ev>, srng: &mut Rng| {
+        if noise && srng.chance(1, 2) {
+            empty_elem(out, "alignment", vec![("horizontal".into(), "center".into())]);
+        }
+        if noise && srng.chance(1, 3) {
+            empty_elem(out, "protection", vec![("locked".into(), "0".into())]);
+        }
+    };
     if !book.num_fmts.is_empty() {
-        out.push(Ev::Start(l.q("numFmts"), vec![("count".into(), book.num_fmts.len().to_string())]));
+        let ca = count_attr(&mut srng, book.num_fmts.len());
+        out.push(Ev::Start(l.q("numFmts"), ca));
         for (id, code) in &book.num_fmts {
             let attrs = arrange(l, &mut arng, vec![("numFmtId".into(), id.to_string()), ("formatCode".into(), code.clone())], &[]);
             out.push(Ev::Start(l.q("numFmt"), attrs));
@@ -844,18 +902,68 @@ pub fn render_styles(book: &XlsxBook, l: &Layout) -> Vec<Ev> {
         }
         out.push(end(&l.q("numFmts")));
     }
-    // a cellStyleXfs block first: its <xf> elements must not be counted
-    out.push(Ev::Start(l.q("cellStyleXfs"), vec![("count".into(), "1".into())]));
-    out.push(Ev::Start(l.q("xf"), vec![("numFmtId".into(), "0".into())]));
-    out.push(end(&l.q("xf")));
-    out.push(end(&l.q("cellStyleXfs")));
-    out.push(Ev::Start(l.q("cellXfs"), vec![("count".into(), book.cell_xfs.len().to_string())]));
-    for id in &book.cell_xfs {
-        let attrs = arrange(l, &mut arng, vec![("numFmtId".into(), id.to_string()), ("xfId".into(), "0".into())], &XF_EXTRAS);
+    if noise {
+        for (blk, item) in [("fonts", "font"), ("fills", "fill"), ("borders", "border")] {
+            if srng.chance(2, 3) {
+                let ca = count_attr(&mut srng, 1);
+                out.push(Ev::Start(l.q(blk), ca));
+                empty_elem(&mut out, item, vec![]);
+                out.push(end(&l.q(blk)));
+            }
+        }
+    }
+    // a cellStyleXfs block first: its <xf> elements are NOT cell formats and must not be counted
+    let style_xfs: Vec<Option<u32>> = if noise {
+        (0..srng.range(1, 4)).map(|_| *srng.pick(&[Some(0u32), Some(14), Some(22), Some(46), None, Some(164)])).collect()
+    } else {
+        vec![Some(0)]
+    };
+    let ca = if noise { count_attr(&mut srng, style_xfs.len()) } else { vec![("count".into(), "1".into())] };
+    out.push(Ev::Start(l.q("cellStyleXfs"), ca));
+    for id in &style_xfs {
+        let attrs: Vec<(String, String)> = match id {
+            Some(id) => vec![("numFmtId".into(), id.to_string())],
+            None => vec![("fontId".into(), "0".into())],
+        };
         out.push(Ev::Start(l.q("xf"), attrs));
+        xf_children(&mut out, &mut srng);
+        out.push(end(&l.q("xf")));
+    }
+    out.push(end(&l.q("cellStyleXfs")));
+    let ca = count_attr(&mut srng, book.cell_xfs.len());
+    out.push(Ev::Start(l.q("cellXfs"), ca));
+    for id in &book.cell_xfs {
+        let mut base: Vec<(String, String)> = vec![];
+        // `numFmtId` is optional and defaults to 0: a General entry may come without it and still owns its index
+        if !(*id == 0 && roll(&mut srng, l.pct_xf_omit_general)) {
+            base.push(("numFmtId".into(), id.to_string()));
+        }
+        base.push(("xfId".into(), "0".into()));
+        let attrs = arrange(l, &mut arng, base, &XF_EXTRAS);
+        out.push(Ev::Start(l.q("xf"), attrs));
+        xf_children(&mut out, &mut srng);
         out.push(end(&l.q("xf")));
     }
     out.push(end(&l.q("cellXfs")));
+    if noise {
+        if srng.chance(1, 2) {
+            let ca = count_attr(&mut srng, 1);
+            out.push(Ev::Start(l.q("cellStyles"), ca));
+            empty_elem(&mut out, "cellStyle", vec![("name".into(), "Normal".into()), ("xfId".into(), "0".into()), ("builtinId".into(), "0".into())]);
+            out.push(end(&l.q("cellStyles")));
+        }
+        // differential formats: their <numFmt> elements (ids colliding with real ones, other format class) define nothing
+        let ca = count_attr(&mut srng, 2);
+        out.push(Ev::Start(l.q("dxfs"), ca));
+        for (id, code) in [(165u32, "yyyy\\-mm\\-dd"), (164, "0.00"), (0, "[h]:mm:ss"), (14, "0")] {
+            if srng.chance(1, 2) {
+                out.push(start(&l.q("dxf"), &[]));
+                empty_elem(&mut out, "numFmt", vec![("numFmtId".into(), id.to_string()), ("formatCode".into(), code.to_string())]);
+                out.push(end(&l.q("dxf")));
+            }
+        }
+        out.push(end(&l.q("dxfs")));
+    }
     out.push(end(&l.q("styleSheet")));
     out
 }
@@ -985,7 +1093,18 @@ impl XlsxBook {
                 wb.push(Ev::Start(l.q("definedName"), vec![("name".into(), n.clone())]));
                 if !v.is_empty() {
                     let chars: Vec<char> = v.chars().collect();
-                    if self.split_defined_names && chars.len() >= 2 {
+                    if self.cdata_defined_names && !v.contains("]]>") {
+                        // part of the text (all of it when it is short) sits in a CDATA section (C16)
+                        let k = chars.len() / 3;
+                        let m = chars.len() - chars.len() / 3;
+                        if k > 0 {
+                            wb.push(text(&chars[..k].iter().collect::<String>()));
+                        }
+                        wb.push(Ev::CData(chars[k..m].iter().collect::<String>()));
+                        if m < chars.len() {
+                            wb.push(text(&chars[m..].iter().collect::<String>()));
+                        }
+                    } else if self.split_defined_names && chars.len() >= 2 {
                         // the text arrives in two Text events around a comment (C16)
                         let k = chars.len() / 2;
                         wb.push(text(&chars[..k].iter().collect::<String>()));
